@@ -193,7 +193,8 @@ let rc_snapshot (s : rc) : string =
       let i = int_of_nat n in
       match v.vparent i with
       | None -> ()
-      | Some p -> if not (List.mem i (v.vkids p)) then found := Printf.sprintf "U:h%d" h :: !found) s.r_names;
+      | Some p -> if not (List.mem i (v.vkids p)) then
+          found := Printf.sprintf "U:h%d:%s" h (if v.vname p = "-" then "anon" else "h" ^ v.vname p) :: !found) s.r_names;
   let links = if !found = [] then "ok" else String.concat " " (List.rev !found) in
   let fuel = nat_of_int (4 * v.vsize + 8) in
   let ser = List.mapi (fun k r ->
